@@ -8,6 +8,9 @@ CLAIMED = {
  'C03': dict(technique='must-call dataflow and hypothesis pins on the T0 handshake bytecode (abstract interpretation with path-sensitive word summaries), hypothesis folding of the C helpers',
              text='Static necessary conditions: application data is enabled only after a completed read-Finished on every path; a Finished mismatch, a failed ServerKeyExchange/CertificateVerify verification and a failed certificate validation (server: unless exactly BR_OPT_TOLERATE_NO_CLIENT_AUTH) end in fail(error); the Finished is read under the new keys; C helpers report every failing primitive; a failed key exchange is replaced by random bytes; anti-rollback version is written. Does not decide transcript-hash sensitivity or negotiation content.',
              note='Trusted: T0 decoder, IR-derived native stack effects, kernel-word models (arithmetic/stack natives by name), clang/opt 14.'),
+ 'C04': dict(technique='hypothesis folding of the trust/signature helpers and the verdict API, who-may-write scan of the acceptance code, hypothesis pins on the X.509 T0 bytecode',
+             text='Static necessary conditions: every failing primitive / mismatch in verify_signature and the trust-anchor helpers rejects; BR_ERR_X509_OK is stored only inside the engine and only under a positive helper verdict (static and dynamic anchors); the verdict API reports errors and releases no key from a rejected chain; in the T0 code a failed issuer signature, validity range or issuer/subject DN mismatch forces its failure code; all documented rejection codes have reachable sites. Does not decide ASN.1 decoding or equality with a reference validator.',
+             note='Trusted: clang/opt 14, sa/t0.py, sa/t0ai.py.'),
  'C05': dict(technique='exhaustive stack-depth and balance analysis of the T0 bytecode with native effects derived from the run function IR; struct layouts from debug info',
              text='Static: for all seven T0 interpreters (X.509 minimal/decoder, private/public key decoders, PEM, client and server handshake) the maximum data and return stack depth over every path of every word fits the context arrays, every join is balanced, the call graph is acyclic and the stack pointers are initialised to the arrays. Decides VM stack safety for every input; does not decide the C code of native words.',
              note='Trusted: clang 14 IR, irdump, sa/t0.py decoder; the interpreter skeleton is re-derived from IR (exit 2 if unrecognised). LP64 layouts.'),
@@ -57,7 +60,7 @@ m = dict(
             source_commits=[], add_only=True),
  engines=[
   dict(name='IRF', path='tools/irdump.cc, sa/irf.py, sa/build.py', serves_properties=sorted(CLAIMED), kind_free_text='LLVM-IR facts (CFG, SSA, debug-info layouts) for every unit of the real build'),
-  dict(name='T0', path='sa/t0.py', serves_properties=['C03', 'C05', 'C19'], kind_free_text='decoder + analyses for the T0 bytecode embedded in the generated interpreters'),
+  dict(name='T0', path='sa/t0.py', serves_properties=['C03', 'C04', 'C05', 'C19'], kind_free_text='decoder + analyses for the T0 bytecode embedded in the generated interpreters'),
   dict(name='TAB', path='sa/tab.py', serves_properties=['C11', 'C12', 'C13'], kind_free_text='constants lifted from IR vs references generated from the standards'),
   dict(name='WMW', path='sa/wmw.py', serves_properties=['C06', 'C20'], kind_free_text='who-may-write / exactly-once structural rules over the whole program IR'),
   dict(name='FOLD', path='sa/fold.py, sa/oblig.py', serves_properties=['C02', 'C03', 'C05', 'C06', 'C10', 'C11', 'C14', 'C20'], kind_free_text='hypothesis folding with opt-14 as abstract interpreter; must-conjunct dataflow'),
